@@ -1,4 +1,104 @@
-/-! Line-protocol operations for the Diff glue model (filled in by the Diff model; `none` = unknown op). -/
+import SphericalVerif.Model.Operators
+/-! Line-protocol operations for the differential-operator / conversion model (`none` = unknown op).
+    Tokens (after the leading `diff`); doubles are decimal UInt64 bit patterns, complex = `re im`:
+      `coef <name> <s> <ell> <m>`                      → one double (or `skip` for `inv` outside its domain)
+           name ∈ Lplus Lminus Lz L2 Rz Rplus Rminus eth ethbar  (s = spin of the INPUT of the operator)
+                  ethGHP ethbarGHP ethNP ethbarNP inv             (array-level factor for (s, ell))
+      `ellmax <len> <ell_min>`                          → inferred ell_max (decimal integer)
+      `modesop <name> <s> <ell_max> <weights…>`         → `s=<new s> L=<new ell_max> <weights…>`  (storage order from ell = 0)
+      `arrayop <name> <s> <ell_min> <n> <entries…>`     → `<entries…>` (n complex numbers)
+      `conv <name> <sqrt4pi> <sqrt2pi3> <sqrt4pi3> <values…>` → values
+           name ∈ cas (complex c) casR (float c) cfrom (complex w) cfromR (float w)
+                  vas (3 complex) vasR (3 floats) vfrom (3 complex) -/
 namespace DiffOps
-def step (_toks : List String) : Option String := none
+open Model Model.Ops
+
+def fb (x : Float) : String := toString x.toBits.toNat
+def bf (s : String) : Float := Float.ofBits (UInt64.ofNat s.toNat!)
+def cxs (z : Cx Float) : String := fb z.re ++ " " ++ fb z.im
+
+def parseCx (toks : List String) : Array (Cx Float) := Id.run do
+  let a := toks.toArray
+  let mut out : Array (Cx Float) := #[]
+  for i in [0:a.size/2] do
+    out := out.push ⟨bf a[2*i]!, bf a[2*i+1]!⟩
+  return out
+
+def showCx (a : Array (Cx Float)) : String := String.intercalate " " (a.map cxs).toList
+
+def coef (name : String) (s ell m : Int) : Option String :=
+  match name with
+  | "Lplus" => some (fb (cLplus (α := Float) ell m))
+  | "Lminus" => some (fb (cLminus (α := Float) ell m))
+  | "Lz" => some (fb (cLz (α := Float) m))
+  | "L2" => some (fb (cL2 (α := Float) ell))
+  | "Rz" => some (fb (cRz (α := Float) s))
+  | "Rplus" => some (fb (cRplus (α := Float) ell (s - 1)))
+  | "Rminus" => some (fb (cRminus (α := Float) ell (s + 1)))
+  | "eth" => some (fb (cRminus (α := Float) ell (s + 1)))
+  | "ethbar" => some (fb (Scalar.neg (cRplus (α := Float) ell (s - 1))))
+  | "ethGHP" => some (fb (fEthGHP (α := Float) s ell))
+  | "ethbarGHP" => some (fb (fEthbarGHP (α := Float) s ell))
+  | "ethNP" => some (fb (fEthNP (α := Float) s ell))
+  | "ethbarNP" => some (fb (fEthbarNP (α := Float) s ell))
+  | "inv" => some (if Scalar.lt (zero : Float) (termInv (α := Float) s ell) then fb (fInv (α := Float) s ell) else "skip")
+  | _ => none
+
+def modesOp (name : String) (f : Modes Float) : Option (Modes Float) :=
+  match name with
+  | "Lsquared" => some (Lsquared f)
+  | "Lz" => some (Lz f)
+  | "Lplus" => some (Lplus f)
+  | "Lminus" => some (Lminus f)
+  | "Rsquared" => some (Rsquared f)
+  | "Rz" => some (Rz f)
+  | "Rplus" => some (Rplus f)
+  | "Rminus" => some (Rminus f)
+  | "eth" => some (eth f)
+  | "ethbar" => some (ethbar f)
+  | _ => none
+
+def arrayOp (name : String) (a : Array (Cx Float)) (s ellMin : Int) : Option (Array (Cx Float)) :=
+  match name with
+  | "eth_GHP" => some (ethGHP a s ellMin)
+  | "ethbar_GHP" => some (ethbarGHP a s ellMin)
+  | "eth_NP" => some (ethNP a s ellMin)
+  | "ethbar_NP" => some (ethbarNP a s ellMin)
+  | "ethbar_inverse_NP" => some (ethbarInverseNP a s ellMin)
+  | _ => none
+
+def showV (v : Vec3 (Cx Float)) : String := cxs v.x ++ " " ++ cxs v.y ++ " " ++ cxs v.z
+
+def conv (name : String) (K : ConvConsts Float) (v : List String) : Option String :=
+  match name, v with
+  | "cas", [re, im] => some (cxs (constantAsEll0 K ⟨bf re, bf im⟩))
+  | "casR", [x] => some (fb (constantAsEll0R K (bf x)))
+  | "cfrom", [re, im] => some (cxs (constantFromEll0 K ⟨bf re, bf im⟩))
+  | "cfromR", [x] => some (fb (constantFromEll0R K (bf x)))
+  | "vas", [a, b, c, d, e, f] => some (showV (vectorAsEll1 K ⟨⟨bf a, bf b⟩, ⟨bf c, bf d⟩, ⟨bf e, bf f⟩⟩))
+  | "vasR", [a, b, c] => some (showV (vectorAsEll1R K ⟨bf a, bf b, bf c⟩))
+  | "vfrom", [a, b, c, d, e, f] => some (showV (vectorFromEll1 K ⟨⟨bf a, bf b⟩, ⟨bf c, bf d⟩, ⟨bf e, bf f⟩⟩))
+  | _, _ => none
+
+def step (toks : List String) : Option String :=
+  match toks with
+  | ["coef", name, s, ell, m] => do
+    let s ← s.toInt?; let ell ← ell.toInt?; let m ← m.toInt?
+    coef name s ell m
+  | ["ellmax", len, ellMin] => do
+    let len ← len.toInt?; let ellMin ← ellMin.toInt?
+    pure (toString (inferEllMax len ellMin))
+  | "modesop" :: name :: s :: ellMax :: w => do
+    let s ← s.toInt?; let ellMax ← ellMax.toNat?
+    let g ← modesOp name (Modes.ofArray s ellMax (parseCx w))
+    pure ("s=" ++ toString g.s ++ " L=" ++ toString g.ellMax ++ " " ++ showCx g.toArray)
+  | "arrayop" :: name :: s :: ellMin :: n :: w => do
+    let s ← s.toInt?; let ellMin ← ellMin.toInt?; let n ← n.toNat?
+    let a := parseCx w
+    if a.size ≠ n then none else
+    let r ← arrayOp name a s ellMin
+    pure (showCx r)
+  | "conv" :: name :: k0 :: k1 :: k2 :: v =>
+    conv name ⟨bf k0, bf k1, bf k2⟩ v
+  | _ => none
 end DiffOps
